@@ -18,16 +18,17 @@
    sensitivity self-test of this model, expected to fail):
      GuardZ      after closepath only moveto/closepath   (Z keeps cx,cy,qx,qy: `...Z C` -> `z S`)
      GuardDeg    no smooth command after a degenerate curve that was turned into a line
-     GuardZeroL  no smooth command after a dropped zero-length lineto that followed a curve
+     GuardZeroL  no lineto / curve that simplifies to a zero-length line directly after a curve (it is
+                 dropped and the next command, possibly rewritten to a smooth one, follows the curve)
    A mismatch between this model and the code is DRIFT information, never a verdict.          *)
 EXTENDS SvgPath
-CONSTANTS MaxN, Coords, CtrlCoords, GuardZ, GuardDeg, GuardZeroL
+CONSTANTS MaxN, Coords, CtrlCoords, Letters, GuardZ, GuardDeg, GuardZeroL
 VARIABLES si, so, d, n, last, ok
 vars == <<si, so, d, n, last, ok>>
 
 \* d: the shortener's state.  last: what the guards need to know about the previous input group.
 D0 == [x |-> 0, y |-> 0, x0 |-> 0, y0 |-> 0, cnan |-> TRUE, cx |-> 0, cy |-> 0, qnan |-> TRUE, qx |-> 0, qy |-> 0]
-Last0 == [z |-> FALSE, degc |-> FALSE, degq |-> FALSE, zc |-> FALSE, zq |-> FALSE]
+Last0 == [z |-> FALSE, degc |-> FALSE, degq |-> FALSE]
 
 Pairs(S) == {<<a, b>> : a \in S, b \in S}
 Args(u) ==
@@ -122,8 +123,6 @@ InputAllowed(u) ==
   /\ (GuardZ /\ last.z) => u \in {77, 90}
   /\ (GuardDeg /\ last.degc) => u # 83
   /\ (GuardDeg /\ last.degq) => u # 84
-  /\ (GuardZeroL /\ last.zc) => u # 83
-  /\ (GuardZeroL /\ last.zq) => u # 84
 
 SegsEq(a, b) == PathEq(Norm(a), Norm(b), 0)
 
@@ -138,19 +137,16 @@ Step(u, v, rel, multi, alt) ==
      ELSE LET r == Copy(d, c, v, multi, alt)
               ro == IF r.out.c = 0 THEN [st |-> so, seg |-> <<"L", so.x, so.y, so.x, so.y, 0, 0, 0, 0, 0>>]
                     ELSE StepGroup(so, r.out.c, r.out.a)
-              zero == ZeroLine(ri.seg)
           IN
+          /\ GuardZeroL => ~(si.pk # "N" /\ ZeroLine(Simplify(ri.seg)) /\ u \in {76, 67, 83, 81, 84})
           /\ si' = ri.st /\ so' = ro.st /\ d' = r.p
           /\ ok' = /\ SegsEq(<<ri.seg>>, <<ro.seg>>)
                    /\ ri.st.x = ro.st.x /\ ri.st.y = ro.st.y /\ ri.st.sx = ro.st.sx /\ ri.st.sy = ro.st.sy
                    /\ r.p.x = ri.st.x /\ r.p.y = ri.st.y            \* the shortener's cursor is the current point
-          /\ last' = [z |-> FALSE,
-                      degc |-> DegCubic(ri.seg), degq |-> DegQuad(ri.seg),
-                      zc |-> zero /\ u = 76 /\ (si.pk = "C" \/ last.zc),
-                      zq |-> zero /\ u = 76 /\ (si.pk = "Q" \/ last.zq)]
+          /\ last' = [z |-> FALSE, degc |-> DegCubic(ri.seg), degq |-> DegQuad(ri.seg)]
 
 Next == /\ n < MaxN /\ ok
-        /\ \E u \in Upper : InputAllowed(u) /\
+        /\ \E u \in Letters : InputAllowed(u) /\
              \E v \in Args(u) : \E rel \in BOOLEAN : \E multi \in BOOLEAN : \E alt \in BOOLEAN :
                 /\ (multi => u \in {67, 81, 83, 84})  \* only matters for curves (C -> S, Q -> T inside a run)
                 /\ Step(u, v, rel, multi, alt)
@@ -160,6 +156,10 @@ Spec == Init /\ [][Next]_vars
 Refines == ok
 InRange == ~si.bad /\ ~so.bad
 
+LettersAll == Upper
+LettersZ == {77, 67, 90}              \* M C Z
+LettersDeg == {77, 67, 83, 81, 84}     \* M C S Q T
+LettersZeroL == {77, 67, 76, 83}       \* M C L S
 C4 == {-1, 0, 1, 2}
 C3 == {0, 1, 2}
 C2 == {0, 1}
